@@ -107,11 +107,14 @@ def gen_case(rng, tier):
         for _ in range(rng.randint(1, 3)):
             pre.append(avops.gen_query(rng, ref, max(0, nmax - rng.randint(1, 3)), classical, allow_first))
     nthreads = rng.choice([2, 2, 2, 3, 3, 4])
+    # the threads that create the class themselves do so from the same pattern objects (whose
+    # search tables are memoised per object on first use, outside any lock of the class)
+    share_patts = rng.random() < (0.6 if deep else 0.1)
     threads = []
     for _ in range(nthreads):
         nops = rng.choice([1, 1, 2, 2, 3, 4])
         ops = [avops.gen_query(rng, ref, nmax, classical, allow_first, others) for _ in range(nops)]
-        own = rng.random() < 0.3
+        own = rng.random() < (0.7 if share_patts else 0.3)
         if rng.random() < 0.3:
             # a live iterator held across the thread's other queries
             kind = rng.choice(["of_length", "of_length", "up_to_length"])
@@ -126,7 +129,7 @@ def gen_case(rng, tier):
     if rng.random() < 0.12:
         threads.append({"handle": "none", "form": "list", "salt": 0,
                         "ops": [{"op": "clear_cache"} for _ in range(rng.randint(1, 2))]})
-    pol = rng.choice(["rw", "rw", "rw", "edge", "edge", "pct", "stall", "seq"])
+    pol = rng.choice(["rw", "rw", "rw", "edge", "edge", "pct", "stall", "seq", "publish", "publish"])
     sched = {"mode": "policy", "policy": pol, "seed": rng.getrandbits(48)}
     if pol == "rw":
         sched["p"] = rng.choice([0.002, 0.01, 0.05, 0.2, 0.5])
@@ -135,6 +138,11 @@ def gen_case(rng, tier):
         sched["p_base"] = rng.choice([0.0, 0.001, 0.01])
     elif pol == "pct":
         sched["depth"] = rng.choice([1, 2, 3])
+    elif pol == "publish":
+        sched["p_struct"] = rng.choice([0.5, 0.9])
+        sched["p_fine"] = rng.choice([0.0, 0.01, 0.05])
+        sched["p_base"] = rng.choice([0.0, 0.002, 0.02])
+        sched["burst"] = int(10 ** rng.uniform(1, 3.5))
     elif pol == "stall":
         sched["p"] = rng.choice([0.01, 0.05])
         sched["victim"] = rng.randrange(nthreads)
@@ -149,6 +157,7 @@ def gen_case(rng, tier):
         # included: Perm.insert / remove / avoids, pattern search, basis construction), not only
         # inside permuta/perm_sets
         "trace": "all" if deep else "perm_sets",
+        "share_patts": share_patts,
     }
 
 
@@ -167,7 +176,24 @@ def cases(rng, tier):
 # --- execution --------------------------------------------------------------------
 
 
-def _make_policy(s, ntids):
+def _watch_shared(pm, shared):
+    """(structural, fine) fingerprint of what the threads share: the number of levels of the
+    shared class object and which list holds them / the number of class objects; the sizes
+    of the three newest levels."""
+    def watch():
+        cache = getattr(shared, "cache", None)
+        reg = getattr(pm.Av, "_CLASS_CACHE", None)
+        nreg = len(reg) if hasattr(reg, "__len__") else 0
+        if not isinstance(cache, list):
+            return ((nreg,), ())
+        fine = 0
+        for lvl in cache[-3:]:
+            fine = fine * 1000003 + (len(lvl) if hasattr(lvl, "__len__") else 0)
+        return ((len(cache), id(cache), nreg), fine)
+    return watch
+
+
+def _make_policy(s, ntids, watch=None):
     if s["mode"] == "segments":
         return threadsim.SegmentPolicy(s["segments"])
     rng = random.Random(s["seed"])
@@ -178,6 +204,8 @@ def _make_policy(s, ntids):
         return threadsim.EdgePolicy(rng, s["p_edge"], s["p_base"])
     if pol == "pct":
         return threadsim.PCTPolicy(rng, list(range(ntids)), s.get("est_len", 2000), s["depth"])
+    if pol == "publish":
+        return threadsim.PublishPolicy(rng, watch, s["p_struct"], s["p_fine"], s["p_base"], s["burst"])
     if pol == "stall":
         return threadsim.StallPolicy(rng, s["p"], s["victim"], s["from"], s["len"])
     if pol == "seq":
@@ -216,7 +244,10 @@ def execute(case):
     if not RC.is_classical(ref):
         out.probe("mesh_basis")
 
-    policy = _make_policy(case["schedule"], len(case["threads"]))
+    shared_patts = [common.mk_patt(it) for it in case["basis"]] if case.get("share_patts") else None
+    if shared_patts is not None:
+        out.probe("threads_create_class_from_shared_pattern_objects")
+    policy = _make_policy(case["schedule"], len(case["threads"]), _watch_shared(pm, shared))
     deep = case.get("trace") == "all"
     prefixes = _STATE["prefixes_all"] if deep else _STATE["prefixes"]
     sched = threadsim.Sched(policy, prefixes, log, max_steps=case.get("max_steps", 4_000_000) * (8 if deep else 1))
@@ -232,7 +263,7 @@ def execute(case):
             responses[tid] = res
             if tdesc["handle"] == "own":
                 try:
-                    av = common.mk_av(case["basis"], tdesc["form"], tdesc["salt"])
+                    av = common.mk_av(case["basis"], tdesc["form"], tdesc["salt"], shared_patts)
                 except Exception as exc:  # pylint: disable=broad-except
                     # constructing the class failed inside the library: every query of this
                     # thread is answered by that exception
@@ -287,7 +318,8 @@ def execute(case):
     _STATE["last_steps"] = sched.steps
     out.extra["segments"] = sched.segments
     out.extra["switches"] = sched.switches
-    for name in ("contended_acquire", "lock_handoff", "forced_preempt", "lock_block", "lock_acquire", "two_threads_inside_watched_function"):
+    for name in ("contended_acquire", "lock_handoff", "forced_preempt", "lock_block", "lock_acquire", "two_threads_inside_watched_function",
+                 "preempt_right_after_shared_state_change", "preempt_after_publication_candidates"):
         if sched.counters.get(name):
             out.probe(name, sched.counters[name])
     if sched.lock_holder_preempts:
